@@ -18,6 +18,56 @@ FORBIDDEN_LAST = {"getpid", "getcwd", "cwd", "absolute", "resolve", "realpath", 
 FORBIDDEN_NAMES = {"id", "hash"}
 
 
+MUT = {"add", "append", "extend", "insert", "update", "setdefault", "pop", "popitem", "clear", "remove", "discard"}
+
+
+def shared_mutable_state(prog: Program, modnames):
+    """Module-level or class-level containers of the compiler that some function mutates: state that survives from one
+    compile to the next in the same process.  -> [(module, owner, name, mutation site (FuncInfo, node))]"""
+    out = []
+    for mn in modnames:
+        m = prog.module(mn)
+        shared = {}
+        for k, v in m.assigns.items():
+            if isinstance(v, (ast.Dict, ast.List, ast.Set)) or (isinstance(v, ast.Call) and norm(v.func) in ("dict", "list", "set", "defaultdict", "OrderedDict", "Counter")):
+                shared[k] = (None, k)
+        for ci in m.classes.values():
+            if any(b in ("Enum", "IntEnum") for b in prog.base_names(ci)) or any(norm(d).endswith("dataclass") for d in ci.node.decorator_list):
+                continue
+            for k, v in ci.class_consts.items():
+                if isinstance(v, (ast.Dict, ast.List, ast.Set)) or (isinstance(v, ast.Call) and norm(v.func) in ("dict", "list", "set", "defaultdict", "OrderedDict", "Counter")):
+                    shared[k] = (ci.name, k)
+        if not shared:
+            continue
+        for f in m.functions.values():
+            for n in walk_local(f.node):
+                tgt = None
+                if isinstance(n, (ast.Assign, ast.AugAssign)):
+                    for t in (n.targets if isinstance(n, ast.Assign) else [n.target]):
+                        if isinstance(t, ast.Subscript):
+                            tgt = t.value
+                elif isinstance(n, ast.Call) and isinstance(n.func, ast.Attribute) and n.func.attr in MUT:
+                    tgt = n.func.value
+                elif isinstance(n, ast.Delete):
+                    for t in n.targets:
+                        if isinstance(t, ast.Subscript):
+                            tgt = t.value
+                if tgt is None:
+                    continue
+                p_ = path_of(tgt) or ""
+                last = p_.split(".")[-1]
+                if last in shared and (p_ == last or p_.split(".")[0] in ("self", "cls") or p_.split(".")[0] == (shared[last][0] or "")):
+                    owner = shared[last][0]
+                    # `self.x[...] = ` hits a class-level container only if no instance attribute of that name is created
+                    if owner is not None and p_.startswith("self."):
+                        ci = m.classes[owner]
+                        init = ci.methods.get("__init__")
+                        if init is not None and any(isinstance(x, (ast.Assign, ast.AnnAssign)) and norm(x.targets[0] if isinstance(x, ast.Assign) else x.target) == f"self.{last}" for x in walk_local(init.node)):
+                            continue
+                    out.append((mn, owner, last, f, n))
+    return out
+
+
 def forbidden_call(c: ast.Call):
     nm = norm(c.func)
     last = nm.split(".")[-1]
@@ -148,6 +198,12 @@ def run(prog: Program, chk: Check):
                 bad = (isinstance(it, ast.Call) and isinstance(it.func, ast.Name) and it.func.id in ("set", "frozenset")) or isinstance(it, (ast.Set, ast.SetComp)) \
                     or ".difference(" in t or ".union(" in t or ".intersection(" in t
                 N.decide(not bad, fkey(f, f"for ... in {t[:60]}"), where(f, lp if isinstance(lp, ast.For) else it), "iteration order is deterministic", f"{f.key} iterates an unordered set: {t}")
+    # generator / parser state must not survive from one compile to the next in the same process
+    sms = shared_mutable_state(prog, EMITTING_MODS)
+    for mn, owner, name, f, n in sms:
+        N.bad(fkey(f, f"shared:{(owner + '.') if owner else ''}{name}"), where(f, n), f"{f.qual} mutates the {'class' if owner else 'module'}-level container `{(owner + '.') if owner else ''}{name}`: output of a compile depends on what was compiled earlier in the same process")
+    if not sms:
+        N.ok(f"{PAR}|no-shared-mutable-compiler-state", "src/pyrtma", "no module- or class-level container of parser/compile/back ends is mutated at run time")
     cf = prog.func("pyrtma.compile", "compile")
     dumps = [c for c in calls_in(cf.node) if is_method_call(c, "to_json")]
     okd = all(any(isinstance(a, ast.If) and norm(a.test) == "debug" for a in ancestors(c)) for c in dumps)
@@ -225,6 +281,17 @@ def run(prog: Program, chk: Check):
     for n in walk_local(init.node):
         if isinstance(n, (ast.Assign, ast.AnnAssign)) and norm(n.targets[0] if isinstance(n, ast.Assign) else n.target) == "self.yaml_dict" and isinstance(n.value, ast.Call):
             keys = [k.arg for k in n.value.keywords]
+    for fn_ in ("Parser.__init__", "Parser.clear"):
+        ff = prog.func(PAR, fn_)
+        fresh = False
+        for n in walk_local(ff.node):
+            if isinstance(n, (ast.Assign, ast.AnnAssign)) and norm(n.targets[0] if isinstance(n, ast.Assign) else n.target) == "self.yaml_dict":
+                v = n.value
+                if isinstance(v, ast.Call) and norm(v.func) == "dict" and not v.args and all(isinstance(k.value, (ast.Dict, ast.List)) and not (k.value.keys if isinstance(k.value, ast.Dict) else k.value.elts) for k in v.keywords):
+                    fresh = True
+                if isinstance(v, ast.Dict) and all(isinstance(x, ast.Dict) and not x.keys for x in v.values):
+                    fresh = True
+        Y.decide(fresh, fkey(ff, "yaml_dict-fresh-sections"), where(ff), "yaml_dict is rebuilt with fresh, empty section dicts", f"{fn_} does not rebuild self.yaml_dict from fresh empty section dicts (sections shared between parsers / never emptied)")
     Y.decide(keys is not None and {"constants", "string_constants", "aliases", "host_ids", "module_ids", "struct_defs", "message_defs"} <= set(keys), fkey(init, "yaml_dict-sections"), where(init),
              "yaml_dict has a slot for every definition section", f"yaml_dict sections are {keys}")
 
